@@ -188,8 +188,8 @@ def full_base(u, angle_kind='Rad'):
     u.hint_packs.append((lambda im, f: f.name in ('determinant', 'invert') and im is not None and im.module == 'matrix', polys, lemmas))
     u.contract_fns.insert(0, c_matrix.contracts_c02(hints))
     u.contract_fns.insert(0, c_matrix.contract_det_sub)
-    u.contract_fns += [c_quat.contracts, c_angle.contracts]
-    u.select(Sel('SquareMatrix', c_matrix.MAT, ['determinant', 'invert']),
+    u.contract_fns += [c_quat.contracts, c_angle.contracts, c_approx.predicate_contracts]
+    u.select(Sel('SquareMatrix', c_matrix.MAT, ['determinant', 'invert', 'is_invertible', 'is_diagonal', 'is_symmetric']),
              Sel('Transform', c_matrix.MAT, ['inverse_transform', 'inverse_transform_vector', 'concat_self'], trait_args=r'Point3<S>'))
     u.free_fns.append(('matrix', 'det_sub_proc_unsafe'))
     c_quat.select_c04(u)
